@@ -171,6 +171,7 @@ def gen_case(run_seed: int, tier: str, index: int = 0) -> dict:
         "stickiness": r.choice([0.0, 0.0, 0.5, 0.8, 0.95]),
         "spurious": r.choice([0.0, 0.0, 0.15]),
         "preempt_p": r.choice([0.0, 0.0, 0.003, 0.02]),
+        "preempt_first": st.rng("preempt-first-visit").choice([0.0, 0.0, 0.3, 0.7]),
         # PCT-style: a few pre-chosen bytecode boundaries at which the running thread is pre-empted
         "preempt_points": (sorted(r.sample(range(1, 4000), r.choice([1, 2, 3]))) if r.random() < 0.15 else None),
         "hide_fileno": r.random() < 0.4,
@@ -530,7 +531,7 @@ def shrink_candidates(case: dict, violation: dict):
         c.pop("graph_parents", None)
         c["schedule"] = None
         yield c
-    for key, val in (("preempt_p", 0.0), ("preempt_points", None), ("spurious", 0.0), ("hide_fileno", False), ("hide_cfr", False), ("chunk", None), ("stickiness", 0.0), ("cfr_cap", None)):
+    for key, val in (("preempt_p", 0.0), ("preempt_first", 0.0), ("preempt_points", None), ("spurious", 0.0), ("hide_fileno", False), ("hide_cfr", False), ("chunk", None), ("stickiness", 0.0), ("cfr_cap", None)):
         if base["sim"].get(key) != val:
             c = copy.deepcopy(base)
             c["sim"][key] = val
